@@ -220,6 +220,13 @@ def step2 (st : DState) (toks : List String) : DState × String :=
                      (List.range xwo).map (fun i => pqNodeAt (10000 + i) 98 false)
         ({ now := t0, pq := some { isMutable := kind == "mut", extra := extra } }, "case " ++ n)
       | _, _, _ => (st, "bad-op"))
+  | ["case", n, "putq", kind, xw, xwo, t0, tid] => (match xw.toNat?, xwo.toNat?, t0.toNat?, tid.toNat? with
+      | some xw, some xwo, some t0, some tid =>
+        let extra := (List.range xw).map (fun i => pqNodeAt i 99 true) ++
+                     (List.range xwo).map (fun i => pqNodeAt (10000 + i) 98 false)
+        ({ now := t0, pq := some { isMutable := kind == "mut", extra := extra }, sock := { nextTid := tid % two32 } },
+          "case " ++ n)
+      | _, _, _, _ => (st, "bad-op"))
   | ["timeout", ns] => (match ns.toNat? with
       | some ns => ({ st with sock := { st.sock with timeout := ns } }, "ok")
       | none => (st, "bad-op"))
@@ -286,7 +293,8 @@ def step2 (st : DState) (toks : List String) : DState × String :=
           | some (k, code) =>
             let (sock, up) := st.sock.recv k tid to st.now
             if !up then ({ st with sock := sock }, "dropped") else
-              let q' := if q.isInflight tid then (if k == .response then q.success else q.error code) else q
+            if !q.isInflight tid then ({ st with sock := sock }, "unowned") else
+              let q' := if k == .response then q.success else q.error code
               ({ st with sock := sock, pq := some q' }, pqView q')))
       | _, _ => (st, "bad-op"))
   | ["check"] => (match st.pq with
@@ -729,6 +737,15 @@ def step (st : DState) (line : String) : DState × String :=
           .put [9] (.putMutable ⟨List.replicate 20 2⟩ [1] (List.replicate 32 3) seq (List.replicate 64 4) none cas)⟩, false⟩
         bytesToHex (Krpc.toBytes m1) ++ " " ++ bytesToHex (Krpc.toBytes m2)
       | _, _, _ => "bad-op")
+  | ["encaddr", ip, port] => (st, match ip.toNat?, port.toNat? with
+      | some ip, some port =>
+        let a : Addr := ⟨UInt32.ofNat ip, UInt16.ofNat port⟩
+        let idOf (b : UInt8) : Id := ⟨List.replicate 20 b⟩
+        let nodes : List Node := [{ id := idOf 5, addr := a }, { id := idOf 6, addr := ⟨0x01020304, 5⟩ }]
+        let m1 : Message := ⟨7, none, some a, .response (.findNode (idOf 1) nodes), false⟩
+        let m2 : Message := ⟨7, none, none, .response (.getPeers (idOf 1) [9] [a] (some nodes)), false⟩
+        bytesToHex (Krpc.toBytes m1) ++ " " ++ bytesToHex (Krpc.toBytes m2)
+      | _, _ => "bad-op")
   | ["encann", implied, port] => (st, match port.toNat? with
       | some port =>
         let imp : Option Bool := if implied == "none" then none else if implied == "0" then some false else some true
